@@ -49,10 +49,12 @@ type ProcCase struct {
 	Strace    *StraceInj `json:"strace,omitempty"`
 	// StdinMode: what is behind descriptor 0: "" a regular file at offset 0,
 	// "offset" a regular file of which an earlier reader has consumed a leading
-	// line (the input is what follows the offset), "pipe" a pipe
+	// line (the input is what follows the offset), "pipe" a pipe, "socket" a
+	// connected stream socket
 	StdinMode string `json:"stdin_mode,omitempty"`
 
 	fifos []fifoFeed
+	ofifo string
 }
 
 const stdinHeader = "#! a leading line that an earlier reader of the same open file has consumed\n"
@@ -97,6 +99,7 @@ func procScratch() string {
 // materialise the case's filesystem in dir; returns argv (without the binary)
 func (c *ProcCase) setup(dir string, variant string) (args []string, stdinPath string, ofilePath string, err error) {
 	c.fifos = nil
+	c.ofifo = ""
 	prog := c.Prog
 	selectors := c.Selectors
 	inputs := c.Inputs
@@ -138,6 +141,15 @@ func (c *ProcCase) setup(dir string, variant string) (args []string, stdinPath s
 		args = append(args, "-o", "outdir")
 	case "devfull":
 		args = append(args, "-o", "/dev/full")
+	case "devnull":
+		args = append(args, "-o", "/dev/null")
+	case "fifo":
+		// the JSON output goes into a named pipe that the harness reads
+		c.ofifo = filepath.Join(dir, "out.fifo")
+		if err = syscall.Mkfifo(c.ofifo, 0o644); err != nil {
+			return
+		}
+		args = append(args, "-o", "out.fifo")
 	}
 	if viaF {
 		name := "prog.jqawk"
@@ -245,6 +257,21 @@ func runBinary(c *ProcCase, variant string) (res procResult, trouble error) {
 		if data, err := os.ReadFile(stdinPath); err == nil {
 			cmd.Stdin = bytes.NewReader(data)
 		}
+	case "socket":
+		// a stream socket on descriptor 0 (what sshd, inetd or socat hand to a command)
+		if data, err := os.ReadFile(stdinPath); err == nil {
+			fds, err := syscall.Socketpair(syscall.AF_UNIX, syscall.SOCK_STREAM|syscall.SOCK_CLOEXEC, 0)
+			if err != nil {
+				return res, err
+			}
+			ours, theirs := os.NewFile(uintptr(fds[0]), "stdin-socket-w"), os.NewFile(uintptr(fds[1]), "stdin-socket-r")
+			cmd.Stdin = theirs
+			defer theirs.Close()
+			go func() {
+				ours.Write(data)
+				ours.Close()
+			}()
+		}
 	}
 	cmd.Stdout = so
 	cmd.Stderr = se
@@ -256,6 +283,35 @@ func runBinary(c *ProcCase, variant string) (res procResult, trouble error) {
 	timer := time.AfterFunc(60*time.Second, func() { cmd.Process.Kill() })
 	done := make(chan struct{})
 	var feeders sync.WaitGroup
+	var ofifoData []byte
+	if c.ofifo != "" {
+		// opened for reading and writing: never blocks, never sees end of file;
+		// read until the binary has exited and nothing more arrives
+		if rf, err := os.OpenFile(c.ofifo, os.O_RDWR, 0); err == nil {
+			feeders.Add(1)
+			go func() {
+				defer feeders.Done()
+				defer rf.Close()
+				buf := make([]byte, 65536)
+				exited := false
+				for {
+					rf.SetReadDeadline(time.Now().Add(20 * time.Millisecond))
+					n, err := rf.Read(buf)
+					ofifoData = append(ofifoData, buf[:n]...)
+					if err != nil && n == 0 {
+						if exited {
+							return
+						}
+						select {
+						case <-done:
+							exited = true // one more round to drain what was written last
+						default:
+						}
+					}
+				}
+			}()
+		}
+	}
 	for _, f := range c.fifos {
 		feeders.Add(1)
 		go func(f fifoFeed) {
@@ -323,6 +379,9 @@ func runBinary(c *ProcCase, variant string) (res procResult, trouble error) {
 		if fb, err := os.ReadFile(ofilePath); err == nil {
 			res.ofile, res.ofileOK = string(fb), true
 		}
+	}
+	if c.ofifo != "" {
+		res.ofile, res.ofileOK = string(ofifoData), true
 	}
 	return res, nil
 }
@@ -528,7 +587,7 @@ func runProcCase(c *ProcCase, keep bool, c01only bool) Outcome {
 			o.Class, o.Msg = "stdout-differs-from-library", fmt.Sprintf("--- library ---\n%s\n--- binary ---\n%s", truncate(want, 600), truncate(res.stdout, 600))
 			return finish()
 		}
-		if wantOK && (c.OMode == "file" || c.OMode == "existing") {
+		if wantOK && (c.OMode == "file" || c.OMode == "existing" || c.OMode == "fifo") {
 			if !res.ofileOK || res.ofile != lib.json {
 				o.Class, o.Msg = "o-file-differs", fmt.Sprintf("-o FILE holds %q, the JSON output is %q", truncate(res.ofile, 300), truncate(lib.json, 300))
 				return finish()
@@ -707,10 +766,10 @@ func genProcCase(t *Tape, c01only bool) *ProcCase {
 		c.Inputs[i] = ProcFile{Name: procfsInputs[t.Draw(len(procfsInputs))], Kind: "procfs"}
 	}
 	if len(c.Inputs) == 0 {
-		c.StdinMode = []string{"", "", "offset", "pipe"}[t.Draw(4)]
+		c.StdinMode = []string{"", "", "offset", "pipe", "socket"}[t.Draw(5)]
 	}
 	// -o
-	c.OMode = []string{"", "", "-", "file", "existing"}[t.Draw(5)]
+	c.OMode = []string{"", "", "-", "file", "existing", "", "-", "file", "devnull", "fifo"}[t.Draw(10)]
 	c.Env = procEnvs[t.Draw(len(procEnvs))]
 	c.Extra = t.Draw(3)
 	// fault states of the simulated filesystem
@@ -869,7 +928,7 @@ func genProcStreamCase(t *Tape) *ProcCase {
 		}
 	}
 	if len(c.Inputs) == 0 {
-		c.StdinMode = []string{"", "offset", "pipe"}[t.Draw(3)]
+		c.StdinMode = []string{"", "offset", "pipe", "socket"}[t.Draw(4)]
 	}
 	return c
 }
